@@ -251,13 +251,13 @@ def unit_autocorr(tier):
 
 # ---------------------------------------------------------------------------------------------------------------
 
-def _tetra_system(seed, T=12):
+def _tetra_system(seed, T=12, family=None):
     import numpy as np
     from pymatgen.core import Element
     from gemdat.trajectory import Trajectory
     from verif.native.synth import random_lattice, random_rotation
     rng = np.random.default_rng(seed)
-    lat = random_lattice(rng, scale=1.6)
+    lat = random_lattice(rng, scale=1.6, family=family)
     inv = np.linalg.inv(lat.matrix)
     tet = np.array([[1, 1, 1], [1, -1, -1], [-1, 1, -1], [-1, -1, 1]]) / np.sqrt(3) * 1.5
     centres = np.array([[0.02, 0.5, 0.97], [0.55, 0.03, 0.48]])
@@ -265,10 +265,10 @@ def _tetra_system(seed, T=12):
     for t in range(T):
         frame = []
         for ci, c in enumerate(centres):
-            R = random_rotation(np.random.default_rng(seed * 100 + t * 7 + ci)) if t else np.eye(3)
+            R = random_rotation(np.random.default_rng(seed * 100 + t * 7 + ci)) if (t or family) else np.eye(3)  # explicit families: the first frame (used for the matching) is randomly oriented too
             frame.append(c)
         for ci, c in enumerate(centres):
-            R = random_rotation(np.random.default_rng(seed * 100 + t * 7 + ci)) if t else np.eye(3)
+            R = random_rotation(np.random.default_rng(seed * 100 + t * 7 + ci)) if (t or family) else np.eye(3)  # explicit families: the first frame (used for the matching) is randomly oriented too
             for v in tet:
                 frame.append(c + (R @ v) @ inv)
         coords.append(frame)
@@ -284,7 +284,7 @@ def replay_orient(inputs):
     from verif.native.synth import brute_mindist
     warnings.filterwarnings('ignore')
     seed = inputs['seed']
-    traj, lat = _tetra_system(seed)
+    traj, lat = _tetra_system(seed, family=inputs.get('family'))
     bad = []
     try:
         o = Orientations(traj, 'P', 'O')
@@ -387,7 +387,7 @@ def bounded_orientations(tier, seed):
                'triclinic/rotated cells; 5 point groups; brute-force minimum-image bond oracle', 'seeded random; every case non-trivial (bonds cross faces)')
     rng = np.random.default_rng(seed + 1818)
     for c in range(n):
-        inp = {'seed': int(rng.integers(1, 10 ** 6))}
+        inp = {'seed': int(rng.integers(1, 10 ** 6)), 'family': [None, 'rhombohedral60', 'monoclinic', 'triclinic', 'hexagonal', None][c % 6]}  # strongly oblique cells included
         r = st.guard(replay_orient, inp)
         if r is None:
             continue
